@@ -18,7 +18,7 @@ Work ONLY inside {wt} . Do NOT read, list or use anything under /verif, and do n
 `cd {wt} && PYTHONPATH={wt} /venv/bin/python ...` (check once that `import tangermeme; print(tangermeme.__file__)` points into {wt}).
 The existing test-suite is run with `cd {wt} && OMP_NUM_THREADS=1 MKL_NUM_THREADS=1 PYTHONPATH={wt} /venv/bin/python -m pytest -q -p no:cacheprovider --timeout=900 -n 6 tests` (pytest-xdist is installed; keep OMP_NUM_THREADS=1 - the machine is shared and over-subscription makes the run take 10x longer; about 3-5 minutes;
 9 tests fail on the pristine tree already: the 7 test_captum_* tests and 2 tests in tests/tools/test_cmd_tomtom.py -- ignore those, but no OTHER test may start failing; run the suite once on the pristine tree first to see the baseline).
-There is no network.
+There is no network. Do NOT use `git stash` (the stash is shared by all worktrees of this repository and other people work in sibling worktrees at the same time); to go back and forth use `git apply patch.diff` / `git apply -R patch.diff` or `git checkout -- .`.
 
 Here is a semantic property of the library that users rely on:
 
